@@ -607,7 +607,7 @@ impl ServerState {
                 self.send("channel-join-confirm", &proto::channel_join_confirm(result, initiator, channel, true), Wrap::X224);
             }
             ClientMsg::ClientInfo { .. } => {
-                self.send("license", &proto::license_pdu(&p.license), Wrap::Sdi);
+                self.send("license", &proto::license_pdu_with(&p.license, p.license_sec_flags), Wrap::Sdi);
                 if self.auto_activate {
                     let sid = self.next_share_id;
                     self.send_demand_active(sid);
